@@ -96,7 +96,9 @@ CLAIMS = {
             "for both argument orders (symmetry by construction), method-form forwarding on the six GeoBody types, "
             "None absorption, inferred result types within the documented table for every ordered pair, "
             "unreachability of the internal raises by types / equality correlation / propositional exhaustiveness / "
-            "add-count, and that no membership test used by the handlers can fall through to NotImplementedError. "
+            "add-count, that no membership test used by the handlers can fall through to NotImplementedError, and -- for the same-type "
+            "pairs, where both argument orders run one handler with exchanged operands -- that at every result return the set of "
+            "consulted candidate families is closed under exchanging the operands. "
             "NOT decided (listed as `undecided` in evidence): raises guarded only by runtime cardinalities or "
             "numeric geometry, and numeric coincidence of handler(a,b) and handler(b,a) for same-type pairs."
         ),
